@@ -13,7 +13,7 @@ from vf.common import now
 
 PROPERTY = "C16"
 WORKERS = {"quick": 16, "thorough": 16}
-TIME = {"quick": 60, "thorough": 1200}
+TIME = {"quick": 60, "thorough": 240}
 TECHNIQUE = "runtime contract (icontract postcondition) on the real normalize_chunks, driven by a seeded spec/shape/dtype/config generator and left active while arrays are created and rechunked through the public API"
 RULE = (
     "postcondition on the real normalize_chunks wherever it returns (a raise = spec refused, tallied by exception class): one non-empty "
